@@ -472,13 +472,16 @@ Value Endgame<kKBPsKB>::strongSideScore(const Position& position) const
             {
                 const Square block1Sq = make_square(Rank(rank(furthestPawnSq) + 1), file1);
                 const Square block2Sq = make_square(rank(furthestPawnSq), file2);
+                // block squares are in normalized coordinates, the board is not
+                const Bitboard weakBishopAttacks = slider_attack<BISHOP>(
+                    position.piece_position(make_piece(weakSide, BISHOP)), position.pieces());
                 if (weakKingSq ==  block1Sq &&
                         (weakBishopSq == block2Sq ||
-                         slider_attack<BISHOP>(weakBishopSq, position.pieces()) & square_bb(block2Sq)))
+                         weakBishopAttacks & square_bb(normalize(block2Sq, strongSide))))
                     return VALUE_POSITIVE_DRAW + 10 * Value(popcount(pawns)) + 2 * Value(rank(furthestPawnSq));
                 if (weakKingSq == block2Sq &&
                         (weakBishopSq == block1Sq ||
-                         slider_attack<BISHOP>(weakBishopSq, position.pieces()) & square_bb(block1Sq)))
+                         weakBishopAttacks & square_bb(normalize(block1Sq, strongSide))))
                     return VALUE_POSITIVE_DRAW + 10 * Value(popcount(pawns)) + 2 * Value(rank(furthestPawnSq));
             }
         }
